@@ -475,3 +475,5 @@ def run(ctx, rep):
     c08_trivia.run_comment(ctx, rep, rid="R-C01-comment")
     from rules.c08 import rule_prestep
     rule_prestep(ctx, rep, rid="R-C01-prestep")
+    from rules import c01_choice
+    c01_choice.run(ctx, rep)
